@@ -28,14 +28,16 @@ const (
 func (r Result) String() string { return [...]string{"unsat", "sat", "unknown"}[r] }
 
 type SolverStats struct {
-	Queries  int
-	Sat      int
-	Unsat    int
-	Unknown  int
-	Errors   int
-	Time     time.Duration
-	Fallback map[string]int
-	MaxQuery time.Duration
+	Queries     int
+	Sat         int
+	Unsat       int
+	Unknown     int
+	Errors      int
+	Time        time.Duration
+	Fallback    map[string]int
+	MaxQuery    time.Duration
+	IntSkipped  int
+	IntMismatch int
 }
 
 type Solver struct {
@@ -49,6 +51,10 @@ type Solver struct {
 	Stats   SolverStats
 	timeout int // ms for the pipe solver
 	log     io.Writer
+	// persistent pipe for integer-translation queries
+	icmd *exec.Cmd
+	iin  io.WriteCloser
+	iout *bufio.Reader
 }
 
 func NewSolver(timeoutMS int) *Solver {
@@ -87,7 +93,106 @@ func (s *Solver) start() {
 	s.send("(set-option :global-declarations true)\n(set-option :produce-models true)\n")
 }
 
+func (s *Solver) intPipeStart() bool {
+	if s.icmd != nil {
+		return true
+	}
+	cmd := exec.Command("z3-new", "-in")
+	in, err := cmd.StdinPipe()
+	if err != nil {
+		return false
+	}
+	out, err := cmd.StdoutPipe()
+	if err != nil {
+		return false
+	}
+	cmd.Stderr = os.Stderr
+	if err := cmd.Start(); err != nil {
+		return false
+	}
+	s.icmd, s.iin, s.iout = cmd, in, bufio.NewReaderSize(out, 1<<16)
+	io.WriteString(s.iin, "(set-option :produce-models true)\n")
+	return true
+}
+
+func (s *Solver) intPipeClose() {
+	if s.icmd != nil {
+		s.iin.Close()
+		s.icmd.Process.Kill()
+		s.icmd.Wait()
+		s.icmd = nil
+	}
+}
+
+// intPipeQuery runs a script body (declarations, definitions, assertions)
+// inside push/pop on the persistent integer pipe.
+func (s *Solver) intPipeQuery(body string, names []string, timeoutMS int) (Result, map[string]uint64, bool) {
+	if !s.intPipeStart() {
+		return Unknown, nil, false
+	}
+	var sb strings.Builder
+	fmt.Fprintf(&sb, "(push 1)\n(set-option :timeout %d)\n%s(check-sat)\n", timeoutMS, body)
+	if _, err := io.WriteString(s.iin, sb.String()); err != nil {
+		s.intPipeClose()
+		return Unknown, nil, false
+	}
+	line, err := s.iout.ReadString('\n')
+	if err != nil {
+		s.intPipeClose()
+		return Unknown, nil, false
+	}
+	ans := strings.TrimSpace(line)
+	var res Result = Unknown
+	var vals map[string]uint64
+	switch ans {
+	case "unsat":
+		res = Unsat
+	case "sat":
+		res = Sat
+		if len(names) > 0 {
+			io.WriteString(s.iin, "(get-value ("+strings.Join(names, " ")+"))\n")
+			var buf bytes.Buffer
+			depth, started := 0, false
+			for {
+				l, err := s.iout.ReadString('\n')
+				if err != nil {
+					s.intPipeClose()
+					return Unknown, nil, false
+				}
+				buf.WriteString(l)
+				for _, ch := range l {
+					if ch == '(' {
+						depth++
+						started = true
+					} else if ch == ')' {
+						depth--
+					}
+				}
+				if started && depth <= 0 {
+					break
+				}
+			}
+			if strings.Contains(buf.String(), "(error") {
+				s.intPipeClose()
+				return Unknown, nil, false
+			}
+			vals = parseValues(buf.String())
+		} else {
+			vals = map[string]uint64{}
+		}
+	default:
+		if strings.HasPrefix(ans, "(error") {
+			s.Stats.Errors++
+			s.intPipeClose()
+			return Unknown, nil, false
+		}
+	}
+	io.WriteString(s.iin, "(pop 1)\n")
+	return res, vals, true
+}
+
 func (s *Solver) Close() {
+	s.intPipeClose()
 	if s.cmd != nil {
 		s.in.Close()
 		s.cmd.Process.Kill()
@@ -139,6 +244,16 @@ func (s *Solver) sync(pc []*Term) {
 // CheckSet decides the conjunction of terms (no persistent assertion stack).
 func (s *Solver) CheckSet(terms []*Term, vars []*Term) (Result, map[string]uint64) {
 	return s.Check(nil, terms, vars)
+}
+
+// CheckSetTimeout is CheckSet under a per-query soft timeout (ms).
+func (s *Solver) CheckSetTimeout(terms []*Term, vars []*Term, ms int) (Result, map[string]uint64) {
+	s.send(fmt.Sprintf("(set-option :timeout %d)\n", ms))
+	r, v := s.Check(nil, terms, vars)
+	if s.cmd != nil {
+		s.send(fmt.Sprintf("(set-option :timeout %d)\n", s.timeout))
+	}
+	return r, v
 }
 
 // Check decides pc ∧ extra (extra may be nil). When the answer is sat and
@@ -274,6 +389,9 @@ func parseLit(s string) (uint64, bool) {
 	case strings.HasPrefix(s, "#b"):
 		v, err := strconv.ParseUint(s[2:], 2, 64)
 		return v, err == nil
+	case len(s) > 0 && s[0] >= '0' && s[0] <= '9':
+		v, err := strconv.ParseUint(s, 10, 64)
+		return v, err == nil
 	}
 	return 0, false
 }
@@ -333,8 +451,8 @@ func Script(pc []*Term, extra []*Term, vars []*Term, logic string) string {
 }
 
 type oneShot struct {
-	name string
-	argv []string
+	name  string
+	argv  []string
 	logic string
 }
 
@@ -373,11 +491,17 @@ func (s *Solver) CheckOneShot(pc []*Term, extra []*Term, vars []*Term, timeout t
 		s.Stats.Time += time.Since(t0)
 		s.Stats.Queries++
 		txt := string(out)
-		if strings.Contains(txt, "(error") {
+		first := strings.TrimSpace(strings.SplitN(txt, "\n", 2)[0])
+		// an error line before the verdict makes it inconclusive; after an
+		// `unsat` verdict the only error possible is the refused get-value.
+		if strings.HasPrefix(first, "(error") || (first == "sat" && strings.Contains(txt, "(error")) {
 			s.Stats.Errors++
+			if d := os.Getenv("SYMGO_KEEPQ"); d != "" {
+				os.MkdirAll(d, 0o755)
+				os.WriteFile(fmt.Sprintf("%s/error-%s-%d.smt2", d, fb.name, time.Now().UnixNano()), []byte(script+"\n; "+strings.ReplaceAll(txt, "\n", "\n; ")), 0o644)
+			}
 			continue
 		}
-		first := strings.TrimSpace(strings.SplitN(txt, "\n", 2)[0])
 		switch first {
 		case "unsat":
 			s.Stats.Unsat++
@@ -393,6 +517,10 @@ func (s *Solver) CheckOneShot(pc []*Term, extra []*Term, vars []*Term, timeout t
 			return Sat, parseValues(rest), fb.name
 		default:
 			s.Stats.Unknown++
+			if d := os.Getenv("SYMGO_KEEPQ"); d != "" {
+				os.MkdirAll(d, 0o755)
+				os.WriteFile(fmt.Sprintf("%s/unknown-%s-%d.smt2", d, fb.name, time.Now().UnixNano()), []byte(script), 0o644)
+			}
 		}
 	}
 	return Unknown, nil, ""
